@@ -287,7 +287,13 @@ class SymReal:
 
     def _uf(self, name):
         ENV.ufs_used.add(name)
-        return SymReal(UF[name](self.e))
+        app = UF[name](self.e)
+        if ENV.mode == "sym":
+            ENV.uf_apps.append((name, self.e, app))
+        return SymReal(app)
+
+    def erf(self):
+        return self._uf("erf")
 
     def exp(self):
         return self._uf("exp")
@@ -478,7 +484,7 @@ class SymInt:
         return ENV.concretize_int(s)
 
     def __int__(s):
-        return s
+        return ENV.concretize_int(s)
 
     def __float__(s):
         raise HarnessError("float() of a symbolic int")
@@ -568,6 +574,9 @@ class Env:
         self.pos = 0
         self.pc = []
         self.inputs = {}
+        self.uf_apps = []
+        self.uf_axioms_done = set()
+        self.sqrt_memo = []
         self.choice_log = []
         self._conc_choice = 0
         self.sqrt_sq = {}
@@ -655,6 +664,56 @@ class Env:
                 self.solver.add(b != 0)
                 return
         self.rw_stats["divisors_proved_nonzero"] += 1
+
+    def add_uf_axioms(self):
+        """instantiate sound facts about the uninterpreted exp/log/sin/cos/erf applications met so far:
+        exp>0, exp(0)=1, log(1)=0, |sin|,|cos|<=1, sin^2+cos^2=1, values at multiples of pi/2, double-angle
+        relations between applications whose arguments are u and 2u, erf(0)=0, erf odd, |erf|<1"""
+        apps = list(self.uf_apps)
+        S = lambda e: SymReal(e)  # noqa
+        half_pi = [(k, z3.RealVal(k) * PI / 2) for k in range(0, 5)]
+        for (name, arg, app) in apps:
+            key = (name, arg.get_id())
+            if key in self.uf_axioms_done:
+                continue
+            self.uf_axioms_done.add(key)
+            self._keep.append(arg)
+            if name == "exp":
+                self.add(app > 0)
+                if self.identical(S(arg), 0):
+                    self.add(app == 1)
+            elif name == "log":
+                if self.identical(S(arg), 1):
+                    self.add(app == 0)
+            elif name == "erf":
+                self.add(app < 1, app > -1)
+                if self.identical(S(arg), 0):
+                    self.add(app == 0)
+                self.add(z3.Implies(arg > 0, app > 0), z3.Implies(arg < 0, app < 0))
+            elif name in ("sin", "cos"):
+                self.add(app <= 1, app >= -1)
+                sn, cs = UF["sin"](arg), UF["cos"](arg)
+                self.add(sn * sn + cs * cs == 1)
+                for k, val in half_pi:
+                    if self.identical(S(arg), S(val)):
+                        self.add(sn == [0, 1, 0, -1, 0][k], cs == [1, 0, -1, 0, 1][k])
+        # relations between pairs
+        for i, (n1, a1, p1) in enumerate(apps):
+            for (n2, a2, p2) in apps[i + 1:]:
+                pk = (n1, a1.get_id(), n2, a2.get_id())
+                if pk in self.uf_axioms_done or a1.get_id() == a2.get_id():
+                    continue
+                self.uf_axioms_done.add(pk)
+                trig = n1 in ("sin", "cos") and n2 in ("sin", "cos")
+                if trig:
+                    for (u, v) in ((a1, a2), (a2, a1)):
+                        if self.identical(S(v), S(2 * u)):
+                            su, cu = UF["sin"](u), UF["cos"](u)
+                            self.add(UF["sin"](v) == 2 * su * cu, UF["cos"](v) == 2 * cu * cu - 1, su * su + cu * cu == 1)
+                if n1 == n2 and self.identical(S(a1), S(a2)):
+                    self.add(p1 == p2)
+                if n1 == n2 == "erf" and self.identical(S(a1), S(-a2)):
+                    self.add(p1 == -p2)
 
     def identical(self, a, b):
         """a == b as rational functions of the inputs (abstract quotients expanded); decided by the normal form alone"""
@@ -857,9 +916,13 @@ class Env:
                 r, _, _ = self._check(x.e != h * h)
                 if r == "unsat":
                     return abs(SymReal(h))
+        for (xe, yv) in self.sqrt_memo:
+            if xe.get_id() == x.e.get_id() or (self.use_ratfun and self.identical(SymReal(xe), x)):
+                return SymReal(yv)
         y = self.freshreal("sqrt")
         self.add(y >= 0)
         self.add(y * y == x.e)
+        self.sqrt_memo.append((x.e, y))
         self.sqrt_sq[y.get_id()] = x.e
         self._keep.append(y)
         return SymReal(y)
